@@ -21,7 +21,8 @@ HashSize(alg) == CASE alg = 0 - 16 -> 32 [] alg = 0 - 43 -> 48 [] alg = 0 - 44 -
 HashAlgs == {0 - 16, 0 - 43, 0 - 44, 99, 0 - 7, 0}     \* 0: the reserved id, an unknown hash like any other
 HashLens(alg) == IF HashSize(alg) = 0 THEN {0, 5} ELSE {0, HashSize(alg) - 1, HashSize(alg), HashSize(alg) + 1}
 Absent == [t |-> "absent"]
-Pcts == { Absent, GoInt("uint16", 50), GoInt("int", 0), GoStr(<<97, 47, 98>>), GoNeg("int64", 0), GoBytes(<<1>>), GoStr(<<>>), [t |-> "simple", v |-> 16] }
+Pcts == { Absent, GoInt("uint16", 50), GoInt("int", 0), GoStr(<<97, 47, 98>>), GoStr(<<65, 47, 66>>), GoStr(<<97, 47, 98, 59, 88, 61, 49>>),      \* "a/b", "A/B", "a/b;X=1"
+          GoNeg("int64", 0), GoBytes(<<1>>), GoStr(<<>>), [t |-> "simple", v |-> 16] }
 Locs == { <<>>, <<104, 116, 116, 112, 58, 47, 47, 120>> }
 
 \* base header entries the caller may already have put in either bucket
